@@ -425,6 +425,10 @@ class Gen:
         self.features["duration:non-canonical"] += 1
         return self.pick(["PT60M", "P1W", "PT1H", "P1DT0H0M0S", "PT90M", "P2W", "PT3600S", "P1DT12H", "PT15M", "PT0H30M"])
 
+    def zero_duration(self):
+        self.features["duration:zero-without-dtend"] += 1
+        return "PT0S" if self.canonical else self.pick(["PT0S", "P0D", "PT0M", "PT0H0M0S", "-PT0S", "P0W"])
+
     # ---- VTIMEZONE
     def vtimezone(self, tzid):
         self.features["component:VTIMEZONE"] += 1
@@ -501,11 +505,17 @@ class Gen:
                 e = self.dt_prop("DTEND", mode, tz, "%04d" % (int(sd[:4]) + 1) + sd[4:], st)
                 L.append(e)
             elif c < 0.75 and mode != "date":
-                L.append((None, "DURATION", (), self.duration()))
+                # the length of the event is DTSTART + DURATION; a ZERO duration without DTEND is legal and must be kept
+                # (the documented clean-up removes DURATION:PT0S only next to a DTEND)
+                L.append((None, "DURATION", (), self.zero_duration() if self.chance(0.3) else self.duration()))
             elif c < 0.8 and mode == "date":
                 L.append((None, "DURATION", (), "P1D" if self.canonical else self.pick(["P1D", "P2D", "P1W"])))
-        if kind == "VTODO" and has_start and self.chance(0.5):
-            L.append(self.dt_prop("DUE", mode, tz, "%04d" % (int(sd[:4]) + 1) + sd[4:], st))
+        if kind == "VTODO" and has_start:
+            c = rng.random()
+            if c < 0.45:
+                L.append(self.dt_prop("DUE", mode, tz, "%04d" % (int(sd[:4]) + 1) + sd[4:], st))
+            elif c < 0.75:
+                L.append((None, "DURATION", (), "P1D" if mode == "date" else self.zero_duration() if self.chance(0.3) else self.duration()))
         if kind == "VTODO" and self.chance(0.3):
             L.append((None, "COMPLETED", (), self.date() + "T" + self.time() + "Z"))
             L.append((None, "PERCENT-COMPLETE", (), str(rng.randint(0, 100))))
